@@ -147,6 +147,8 @@ class Sim:
             self.count("cfg_big_sparse_ids")
         if world.get("id_keys") == "renamed":
             self.count("cfg_id_keys_renamed")
+        if world.get("pos_array"):
+            self.count("cfg_pos_as_ndarray")
         if world.get("seg_layout", "C") != "C":
             self.count("cfg_seg_not_contiguous")
         if "0" in world["nodes"]:
